@@ -20,6 +20,7 @@ COUNTS: dict[str, int] = {}      # condition name -> number of (non-vacuous) eva
 VACUOUS: dict[str, int] = {}     # condition name -> evaluations skipped because the contract does not speak
 WORST: dict[str, float] = {}     # condition name -> largest error measured
 INSTALLED: dict[int, tuple] = {}  # id(original) -> (original, wrapped, sites)
+RAISED: list = []                # (key, message) of every contract error constructed (also if a caller swallows it)
 
 RMFV_TOL = 1e-6   # DESIGN C11: orthogonality, determinant and image of rotation_matrix_from_vectors
 RMFA_TOL = 1e-9   # rotation_matrix_from_axis is a closed formula of sin/cos: errors are ~1e-15
@@ -109,6 +110,11 @@ def site_names(sites):
 class ContractViolation(Exception):
     """a runtime contract on a molli function does not hold; `key` names function and clause"""
     key = "contract"
+
+    def __init__(self, *args):
+        super().__init__(*args)
+        if len(RAISED) < 1000:
+            RAISED.append((self.key, str(args[0])[-400:] if args else ""))
 
 
 class RmfvNotOrthogonal(ContractViolation):
